@@ -25,6 +25,7 @@ import (
 	"math/bits"
 	"math/rand"
 	"os"
+	"runtime"
 	"runtime/debug"
 	"sort"
 	"strconv"
@@ -1194,11 +1195,15 @@ func run(c *vf.Ctx) {
 	c.Require("evaluations", total*9/10)
 	c.Require("subscriptions", total)
 	c.Require("callbacks", total)
-	c.Require("overlapping_pairs", c.Pick(200, 5000))
-	c.Require("handoff_windows", c.Pick(20, 500))
+	// overlap-dependent minimums scale with the parallelism actually available (NumCPU respects taskset); on one core
+	// overlap still arises through pre-emption and the Gosched jitter, and the floors prove the windows were entered
+	par := min(runtime.NumCPU(), 4)
+	c.Extra("parallelism_available", runtime.NumCPU())
+	c.Require("overlapping_pairs", max(50, c.Pick(200, 5000)*par/4))
+	c.Require("handoff_windows", max(10, c.Pick(20, 500)*par/4))
 	c.Require("runs_race_build", total/5)
 	c.Require("redundant_unsubscribe_calls", total/2)
-	c.Require("nontrivial", c.Pick(300, 10000))
+	c.Require("nontrivial", max(100, c.Pick(300, 10000)*par/4))
 }
 
 func main() { vf.Main("C13", "exploration", run, child) }
